@@ -238,6 +238,10 @@ func (d *Decoder) decodeValue(f field, t reflect.Type, ff reflect.Value) (n int,
 			}
 
 			vv = reflect.ValueOf(val)
+			if !vv.IsValid() {
+				err = errors.Errorf("no value built for dynamic field %v", f.name)
+				return
+			}
 
 			switch vv.Type() {
 			case typeOfInt32:
@@ -261,6 +265,11 @@ func (d *Decoder) decodeValue(f field, t reflect.Type, ff reflect.Value) (n int,
 			case typeOfTime:
 				f.typ = DATE_TIME
 				return d.decodeValue(f, t, ff)
+			}
+
+			if vv.Kind() != reflect.Ptr || vv.IsNil() {
+				err = errors.Errorf("unsupported value built for dynamic field %v", f.name)
+				return
 			}
 
 			sD, err = getStructDesc(vv.Type().Elem())
